@@ -362,7 +362,7 @@ fn part_a(rng: &mut Rng, n: usize, st: &mut Stats) {
         }
         lines.push(line);
     }
-    let reqs: Vec<String> = lines.iter().map(|l| format!("dep parse {}", hexs(l))).collect();
+    let reqs: Vec<String> = lines.iter().map(|l| format!("c17 dep parse {}", hexs(l))).collect();
     let ans = model(&reqs);
     for (l, a) in lines.iter().zip(ans.iter()) {
         st.inc("A.lines");
@@ -445,7 +445,7 @@ fn part_b(rng: &mut Rng, n: usize, n_make: usize, table_fixed: bool, st: &mut St
         w("Mod Name", &["../path/with spaces/in/it", "/absolute/path", "C:\\win\\absolute\\path"]),
     ];
     all.extend(cases);
-    let reqs: Vec<String> = all.iter().map(|(t, d)| format!("dep rt {} {}", hexs(t), hex_list(d))).collect();
+    let reqs: Vec<String> = all.iter().map(|(t, d)| format!("c17 dep rt {} {}", hexs(t), hex_list(d))).collect();
     let ans = model(&reqs);
     for (idx, ((tgt, deps), a)) in all.iter().zip(ans.iter()).enumerate() {
         st.inc("B.cases");
@@ -642,7 +642,7 @@ fn model_request(c: &Case) -> String {
         .collect();
     let virt: Vec<String> = c.virt.iter().map(|(_, b)| body_str(b)).collect();
     format!(
-        "inc fuel=6000 cwd=0 q={} I={} S={} fs={} files={} inputs={} virt={}",
+        "c17 inc fuel=6000 cwd=0 q={} I={} S={} fs={} files={} inputs={} virt={}",
         nat_list(&c.q),
         nat_list(&c.i),
         nat_list(&c.s),
@@ -1146,7 +1146,7 @@ fn run_case(c: &Case, idx: usize, table_fixed: bool, st: &mut Stats, self_exe: &
     // ---- cargo lines: model of CargoCallbacks on the model's event list
     let set_keys: Vec<String> = c.extra_set.clone();
     let req = format!(
-        "cargo rerun={} target={} set={} inputs={} reported={}",
+        "c17 cargo rerun={} target={} set={} inputs={} reported={}",
         if c.cargo_mode == 1 { 1 } else { 0 },
         c.target.as_ref().map_or("none".into(), |t| hexs(t)),
         hex_list(&set_keys),
@@ -1174,7 +1174,7 @@ fn run_case(c: &Case, idx: usize, table_fixed: bool, st: &mut Stats, self_exe: &
     let dep_text = String::from_utf8_lossy(&dep_bytes).into_owned();
     let name_set: BTreeSet<String> = inputs.iter().cloned().chain(ev_inc.iter().cloned()).collect();
     let names: Vec<String> = name_set.into_iter().collect();
-    let rt = model(&[format!("dep rt {} {}", hexs(&c.module), hex_list(&names))]);
+    let rt = model(&[format!("c17 dep rt {} {}", hexs(&c.module), hex_list(&names))]);
     let rta = rt.first().cloned().unwrap_or_default();
     let toks: BTreeMap<&str, &str> = rta.split(' ').filter_map(|t| t.split_once('=')).collect();
     let mtext = toks.get("text").map(|h| unhex_s(h)).unwrap_or_default();
@@ -1465,7 +1465,7 @@ fn main() {
         std::process::exit(env_probe(&args.extra[i + 1], &self_exe, &args.out));
     }
     let thorough = args.thorough();
-    let table = model(&["dep table".to_owned()]).first().cloned().unwrap_or_default();
+    let table = model(&["c17 dep table".to_owned()]).first().cloned().unwrap_or_default();
     let table_fixed = table == "fixed";
     let mut st = Stats::default();
     let mut rng = Rng::new(args.seed);
